@@ -30,6 +30,8 @@ func main() {
 	switch os.Args[1] {
 	case "engine-traces":
 		cmdEngineTraces(os.Args[2:])
+	case "xproc-store":
+		cmdXprocStore()
 	case "engine-replay":
 		cmdEngineReplay(os.Args[2:])
 	case "lib-replay":
